@@ -18,4 +18,9 @@ for p,v in d['checks'].items():
     print(f"| {id}-{var} | {p} | {d['existing_tests_with_change']} | {d.get('demo_with_change')} / {d.get('demo_without_change')} | {p} {v['tier']} | {'yes' if v['detected'] else 'NO'} | {', '.join(v['signatures'][:3])} {' '.join(v['engine'])} |")
 PY
 done
+cat >> $out.tmp <<'EOF'
+
+Notes: c19-J (prefix decoders return `Prefix.Masked()`) is deliberately not reported: the reference compares the
+leading `length` bits only, because RFC 4271 4.3 calls the value of the trailing bits irrelevant (DESIGN.md 10.2).
+EOF
 mv $out.tmp $out; rm -f /tmp/seedrun.$$.json
